@@ -28,3 +28,7 @@ Print Assumptions C05_tree.
 Theorem C05_program : C05_program_stmt.
 Proof. exact C05_program_proof. Qed.
 Print Assumptions C05_program.
+
+Theorem C05_session : C05_session_stmt.
+Proof. exact C05_session_proof. Qed.
+Print Assumptions C05_session.
